@@ -132,10 +132,28 @@ def make_idgen(xtuml, kind, seed):
     return xtuml.UUIDGenerator(), refstore.RefSequenceGen(lambda k: seams.entropy_value(seed, k))
 
 
-def build_model(xtuml, doc, route, idgen):
+def render_preload(doc, rows):
+    from engines import sqlgen
+    sch = Schema(doc)
+    return '\n'.join(sqlgen.render_row(sch.cls(r['kind']), r['values'], r.get('style', {})) for r in rows) + '\n'
+
+
+def preload_draws(doc, rows):
+    '''ids the loader draws from the generator while creating the loaded instances (then overwritten)'''
+    sch = Schema(doc)
+    n = 0
+    for r in rows:
+        refs = sch.referential(r['kind'])
+        n += len([1 for name, ty in sch.attrs(r['kind']) if name not in refs and ty.upper() == 'UNIQUE_ID'])
+    return n
+
+
+def build_model(xtuml, doc, route, idgen, preload_rows=None):
     if route == 'text':
         loader = xtuml.ModelLoader()
         loader.input(render_schema_sql(doc))
+        if preload_rows:
+            loader.input(render_preload(doc, preload_rows))
         return loader.build_metamodel(idgen)
     m = xtuml.MetaModel(idgen)
     for c in doc['classes']:
@@ -203,6 +221,19 @@ class Gen(object):
         }
         if prop == 'C10':
             self.cfg['shadow'] = sw.choice([None, 'upper', 'lower', 'swap'])
+        if prop in ('C02', 'C09', 'C11', 'C16') and sw.random() < 0.3:
+            # the history starts from a *loaded* population (null / duplicate / dangling keys: states with
+            # over-populated ends that the API alone cannot reach)
+            from engines import sqlgen
+            rows = sqlgen.gen_population(self.st['population'], schema, max_rows=sw.choice([4, 8]),
+                                         p_null=sw.choice([0.0, 0.15]), p_dangling=sw.choice([0.0, 0.15]),
+                                         p_dup=sw.choice([0.0, 0.2, 0.4]))
+            prng = self.st['preload']
+            for r in rows:
+                r['style'] = {'value': prng.randrange(12), 'multiline': prng.random() < 0.3}
+            self.cfg['preload'] = rows
+            self.cfg['route'] = 'text'
+            self.cfg['max_live'] = max(self.cfg['max_live'], len(rows) + 3)
         if self.cfg['route'] == 'text' and self.cfg['idgen'] == 'uuid_default':
             self.cfg['idgen'] = 'uuid'
         w = dict(PROFILES[prop])
@@ -217,6 +248,8 @@ class Gen(object):
         self.sch = Schema(schema)
         _, refgen = make_idgen(_FakeXtuml, self.cfg['idgen'], seed)
         self.ref = RefStore(self.sch, refgen)
+        if self.cfg.get('preload'):
+            init_preload(self.ref, schema, self.cfg['preload'])
         self.ops = []
         self.nh = 0
         self.dead = []
@@ -831,6 +864,14 @@ class Gen(object):
         return {'prop': self.prop, 'engine': 'store', 'seed': self.seed, 'cfg': self.cfg, 'ops': self.ops}
 
 
+def init_preload(ref, schema, rows):
+    from engines import sqlgen
+    pairs = sqlgen.expected_pairs(schema, rows)
+    refstore.preload(ref, rows, pairs)
+    if hasattr(ref.idgen, 'skip'):
+        ref.idgen.skip(preload_draws(schema, rows))
+
+
 class _FakeXtuml(object):
     '''make_idgen needs the xtuml module only for the real half; generation uses the reference half.'''
     class IdGenerator(object):
@@ -1070,11 +1111,21 @@ class World(object):
         self.cfg = cfg
         self.schema = Schema(cfg['schema'])
         self.real_gen, self.ref_gen = make_idgen(xtuml, cfg['idgen'], seed)
-        self.m = build_model(xtuml, cfg['schema'], cfg['route'], self.real_gen)
+        self.m = build_model(xtuml, cfg['schema'], cfg['route'], self.real_gen, cfg.get('preload'))
         self.gen = self.m.id_generator
         self.h2i = {}
         self.i2h = {}
         self.zombies = set()
+        if cfg.get('preload'):
+            by_kind = {}
+            for r in cfg['preload']:
+                by_kind.setdefault(r['kind'].upper(), []).append(r)
+            for ukind, rs in by_kind.items():
+                insts = list(self.m.select_many(rs[0]['kind']))
+                if len(insts) != len(rs):
+                    raise Violation('pool', 'loading %d rows of %s created %d instances' % (len(rs), ukind, len(insts)), 'pool:preload')
+                for r, inst in zip(rs, insts):
+                    self.bind('p%d' % r['row'], inst)
 
     def bind(self, h, inst):
         self.h2i[h] = inst
@@ -1241,6 +1292,12 @@ class Exec(object):
         try:
             self.w = World(self.x, self.cfg, case['seed'])
             self.ref = RefStore(self.w.schema, self.w.ref_gen)
+            if self.cfg.get('preload'):
+                init_preload(self.ref, self.cfg['schema'], self.cfg['preload'])
+                self.bump(self.probes, 'preloaded')
+                if any(len(self.ref.partners(i, h, False)) > 1 and not a['src_many']
+                       for i, a in enumerate(self.ref.schema.assocs) for h in self.ref.live(a['tgt'])):
+                    self.bump(self.probes, 'preloaded_overpopulated_end')
             self.extra = {'has_peek': hasattr(self.w.gen, 'peek')}
             self.compare_state('initial')
             for self.step, op in enumerate(case['ops']):
@@ -1685,6 +1742,11 @@ class Exec(object):
         phrase = op['phrase']
         if phrase not in (a['src_phrase'], a['tgt_phrase']):
             raise Skip('phrase')
+        # the statement is about chains of a one-to-one association: a loaded population with duplicate keys
+        # can over-populate its ends, and then there are no chains to speak of
+        for s_, t_ in ref.pairs[i]:
+            if len(ref.partners(i, s_, True)) > 1 or len(ref.partners(i, t_, False)) > 1:
+                raise Skip('links are not one-to-one')
         other = a['tgt_phrase'] if phrase == a['src_phrase'] else a['src_phrase']
 
         def nav(h, p):
